@@ -48,7 +48,7 @@ NAMES_B = ["zscores", "pvals", "residual_test_stats", "row_order", "column_order
 # ------------------------------------------------------------------------------------
 
 ZERO_BLOCK_SHAPES = ("zero_block_columns", "zero_block_rows", "zero_block_both")
-LARGE_SHAPES = ("large_near_proportional", "large_random", "large_survey")
+LARGE_SHAPES = ("large_near_proportional", "large_random", "large_survey", "large_dominant_margin")
 BLOCK_NAMES = (("base", "inserted_columns"), ("inserted_rows", "intersections"))
 # a cell whose expected count exceeds CANCEL_COND times its residual |count - expected| (both
 # exact, from the values the model is fed with) is dominated by float64 cancellation: the
@@ -111,7 +111,8 @@ def gen_special_stream(rng, k, shape):
                 r_["w"] = r_["w"] * f + (rng.randint(0, 999) if r_["w"] else 0)
         else:
             table = U.large_table(rng, len(U.element_ids(rowv)), len(U.element_ids(colv)),
-                                  "random" if shape == "large_random" else "near_proportional")
+                                  {"large_random": "random", "large_dominant_margin": "dominant"}.get(
+                                      shape, "near_proportional"))
             sv = U.survey_from_weighted_table(rng, rowv, colv, table)
     resp = gen.cube_response(sv, ["rowv", "colv"])
     if rng.random() < 0.3:
@@ -449,8 +450,16 @@ def compare_part(case, io, toks, rep):
             chi2 = (a + b + cc + dd) * (a * dd - b * cc) ** 2 / (R1 * R2 * K1 * K2)
             zb = blocks_of(io, "zscores")[0][0]
             rep.dist("chi2_oracle_tables")
+            T4 = a + b + cc + dd
             for i in range(2):
                 for j in range(2):
+                    e = (R1, R2)[i] * (K1, K2)[j] / T4
+                    if abs(c[i][j] - e) * CANCEL_COND < abs(e):
+                        # same float64 cancellation rule as the model comparison (see CANCEL_COND):
+                        # found as a false alarm of this oracle with the dominant-margin tables
+                        rep.cov["skipped_float_cancellation_cells"] = \
+                            rep.cov.get("skipped_float_cancellation_cells", 0) + 1
+                        continue
                     if not core.close(float(zb[i][j]) ** 2, chi2):
                         fails.append(("chi2-2x2", {"cell": [i, j], "z": zb[i][j], "chi2": chi2, "counts": c}))
     return fails
